@@ -267,8 +267,11 @@ Proof.
   - intros s Hs. revert s Hs. apply Forall_forall.
     apply (bool_decide_eq_true_1 (Forall (λ s, s ∈ decl_inputs ex_mod_bb ∨ s ∈ (drivers ex_mod_bb).*1 ∨ s ∈ netsL (bb_insts [ex_ff] ex_mod_bb)) (decl_outputs ex_mod_bb))).
     vm_compute. reflexivity.
-  - unfold bb_items_ok, ex_mod_bb, Md. simpl. repeat constructor; try exact I.
-    apply (bool_decide_eq_true_1 (bb_in ex_ff ## bb_out ex_ff)). vm_compute. reflexivity.
+  - unfold bb_items_ok. apply Forall_forall. intros it Hit. unfold ex_mod_bb, Md in Hit. cbn [m_items] in Hit.
+    rewrite !elem_of_cons, elem_of_nil in Hit. destruct Hit as [->|[->|[->|[->|[->|[]]]]]]; try exact I.
+    unfold item_bb_ok. assert (E1 : prim_of_name "ff" = None) by (vm_compute; reflexivity).
+    assert (E2 : find_def (k_bbs (init_ctx ex_rsv_bb [ex_ff]).1) "ff" = Some ex_ff) by (vm_compute; reflexivity). rewrite E1, E2.
+    split; [apply (bool_decide_eq_true_1 (bb_in ex_ff ## bb_out ex_ff)); vm_compute; reflexivity|repeat constructor].
   - assert (E : ∃ x0, bb_insts [ex_ff] ex_mod_bb = [x0]) by (eexists; vm_compute; reflexivity). destruct E as [x0 ->].
     intros x y p q ->%elem_of_list_singleton ->%elem_of_list_singleton Hne. done.
 Qed.
